@@ -58,6 +58,11 @@ func runC09(c *core.Ctx) {
 		c.Result(sorted && len(an.CallsTo(fn, false, "sort.Slice")) == 1, "C09.a", "DOM", "Scan:sorted-by-Less", c.P.Pos(fn.Pos()), "the catalog is sorted with Snapshot.Less", "the catalog is not sorted with Snapshot.Less", nil)
 	}
 	if fn := c.Fn("C09.a", "snapshot", "(*Store).check"); fn != nil {
+		// the sweep may have been moved into a helper of check
+		if h := hostOf(fn, func(f *ssa.Function) bool { return len(an.CallsTo(f, false, "snapshot.isTmpName")) > 0 }); h != nil {
+			c.Touch(h)
+			fn = h
+		}
 		var tmp []ssa.Value
 		for _, call := range an.CallsTo(fn, false, "snapshot.isTmpName") {
 			tmp = append(tmp, call.Value())
@@ -201,7 +206,8 @@ func runC09(c *core.Ctx) {
 			for _, call := range an.AllCalls(fn, false) {
 				id := an.CalleeID(call)
 				innerClose := recvField(call, "Sink") == "sinkW" && call.Common().IsInvoke() && call.Common().Method.Name() == "Close"
-				if strings.HasSuffix(id, "sinker.Close") || innerClose || id == "snapshot.StagingDir.MoveWALFilesTo" {
+				viaHelper := successImplies(call.Common().StaticCallee(), "snapshot.StagingDir.MoveWALFilesTo")
+				if strings.HasSuffix(id, "sinker.Close") || innerClose || id == "snapshot.StagingDir.MoveWALFilesTo" || viaHelper {
 					for e := range an.SenseEdges(fn, an.ErrResult(call), an.IsNil) {
 						dataGate[e] = true
 					}
